@@ -1,5 +1,8 @@
 import Dashu.Proofs.Mem.Arith4
 import Dashu.Proofs.NT.LehmerComplete
+import Dashu.Proofs.NT.BinGcd
+import Dashu.Proofs.NT.GcdExt
+import Dashu.Proofs.NT.LehmerExt
 import Dashu.Proofs.Text.FmtLow
 /-
   C17 — link theorems to the properties that own the kernels C17's storage model takes state from (round 5):
@@ -38,6 +41,124 @@ example : lehmerGcdSw 64 ((2 ^ 64 + 1) * (2 ^ 250 + 12345)) ((2 ^ 64 + 1) * (2 ^
 -- `rhs` divides `lhs`: one Euclidean step leaves the gcd in the copy of `rhs` (`swapped = true`)
 example : lehmerGcdSw 64 (3 * (2 ^ 200 + 1)) (2 ^ 200 + 1) = .ok (2 ^ 200 + 1, true) := by decide +kernel
 example := gcd_skeleton_kernel_is_c12 64 (by decide) (3 * (2 ^ 200 + 1)) (2 ^ 200 + 1) (by decide)
+
+/-- gcd_ops.rs `gcd_large` (both operands copied, `gcd::gcd_in_place` between them): the storage skeleton has no panic arm,
+    whatever the operand values — the model-panic arm for a failing Lehmer loop is dead by `gcd_skeleton_kernel_is_c12` -/
+theorem gcd_large_skeleton_no_panic (W : Nat) (hW : 0 < W) (va vb lb' : Nat) : (fGcdLarge W va vb lb').panic = none := by
+  unfold fGcdLarge
+  by_cases h : va = vb
+  · simp [h]
+  · simp only [h, if_false]
+    obtain ⟨sw, hk⟩ := gcd_skeleton_kernel_is_c12 W hW (max va vb) (min va vb)
+      (Nat.le_trans (Nat.min_le_left _ _) (Nat.le_max_left _ _))
+    rw [hk]
+
+private theorem fragGcdTyped_panic (W : Nat) (hW : 0 < W) (aVal bVal : Bool) (a b : List Nat) :
+    ((fragGcdTyped W aVal bVal a b).panic = none ∨ (fragGcdTyped W aVal bVal a b).panic = some .gcdZeroZero) ∧
+    (¬ (wval W a = 0 ∧ wval W b = 0) → (fragGcdTyped W aVal bVal a b).panic = none) := by
+  have hl := gcd_large_skeleton_no_panic W hW (wval W a) (wval W b) (min a.length b.length)
+  unfold fragGcdTyped
+  simp only [NT.gcdPrim_spec]
+  constructor
+  · split_ifs <;> simp_all
+  · intro hz
+    split_ifs <;> simp_all
+
+/-- **the `Gcd::gcd` storage skeletons never hit an internal assert** (round 7; was "observed, not proved"): for `UBig::gcd`
+    and `IBig::gcd` in every ownership form and for ANY operand words (canonical or not, any lengths), the only panic the
+    skeleton can report is the documented `gcd(0, 0)` one, and it reports none unless both operand values are zero.  All
+    model-panic arms (Lehmer loop out of fuel, `lehmer_step` negative result, the primitive gcd on `(x % d, d)`) are dead:
+    C12's `gcdPrim_spec` for the word / dword arms and `lehmerGcd_correct` (through `gcd_skeleton_kernel_is_c12`) for
+    `gcd_large`. -/
+theorem gcd_skeleton_panics_only_on_zero_zero (W : Nat) (hW : 0 < W) (f : Form) (a b : List Nat) :
+    ((fragGcd W f a b).panic = none ∨ (fragGcd W f a b).panic = some .gcdZeroZero) ∧
+    ((fragSignedGcd W f a b).panic = none ∨ (fragSignedGcd W f a b).panic = some .gcdZeroZero) ∧
+    (¬ (wval W a = 0 ∧ wval W b = 0) → (fragGcd W f a b).panic = none ∧ (fragSignedGcd W f a b).panic = none) := by
+  have h := fragGcdTyped_panic W hW (f == .vr || f == .vv) (f == .rv || f == .vv) a b
+  exact ⟨h.1, h.1, fun hz => ⟨h.2 hz, h.2 hz⟩⟩
+
+-- non-vacuity: two 5-word operands (the `gcd_large` arm, Lehmer loop), a 4-word and a 1-word operand (`gcd_large_dword`), and
+-- the one panic that exists: gcd(0, 0), also for a non-canonical zero
+example : ¬ (wval 64 [1, 2, 3, 4, 5] = 0 ∧ wval 64 [7, 0, 9, 0, 11] = 0) := by decide
+example : (fragGcd 64 .rv [1, 2, 3, 4, 5] [7, 0, 9, 0, 11]).panic = none ∧ (fragSignedGcd 64 .vv [6, 0, 0, 3] [4]).panic = none := by
+  decide +kernel
+example : (fragGcd 64 .vv [] []).panic = some .gcdZeroZero ∧ (fragSignedGcd 64 .rr [0] []).panic = some .gcdZeroZero := by
+  decide +kernel
+example := (gcd_skeleton_panics_only_on_zero_zero 64 (by decide) .rv [1, 2, 3, 4, 5] [7, 0, 9, 0, 11]).2.2 (by decide)
+
+/-- the kernel `fGcdExtLarge` takes its values from, `lehmerExtKernel`, totalises C12's `lehmerExt` (`gcd::gcd_ext_in_place`);
+    for the operands `gcd_ext_large` passes (`0 < rhs < lhs`) the totalising arm is dead: `lehmerExt` returns, the skeleton uses
+    exactly its value, and that value meets the contract the post-processing relies on (C12's `lehmerExt_correct`) -/
+theorem gcd_ext_skeleton_kernel_is_c12 (W : Nat) (hW : 0 < W) (lhs rhs : Nat) (h0 : 0 < rhs) (hlt : rhs < lhs) :
+    ∃ res, NT.lehmerExt W lhs rhs = .ok res ∧ NT.lehmerExtKernel W lhs rhs = res ∧ NT.LehmerExtContract lhs rhs res := by
+  obtain ⟨res, h1, h2⟩ := NT.lehmerExt_correct W hW lhs rhs h0 hlt
+  exact ⟨res, h1, by simp [NT.lehmerExtKernel, h1], h2⟩
+
+example := gcd_ext_skeleton_kernel_is_c12 64 (by decide) (2 ^ 200 + 12345) (2 ^ 190 + 7) (by decide) (by decide)
+
+/-- gcd_ops.rs `gcd_ext_large` has no panic arm in the skeleton; `gcd_ext_large_dword`'s model-panic arm (a failing
+    `gcd_ext_word` / `gcd_ext_dword`) is dead by C12's `gcdExtSmall_spec` -/
+theorem gcd_ext_large_skeletons_no_panic (W : Nat) :
+    (∀ ra rb la lb va vb, (fGcdExtLarge W ra rb la lb va vb).panic = none) ∧
+    (∀ r len vl d, (fGcdExtLargeDword W r len vl d).panic = none) := by
+  constructor
+  · intro ra rb la lb va vb
+    unfold fGcdExtLarge
+    split_ifs <;> rfl
+  · intro r len vl d
+    unfold fGcdExtLargeDword
+    by_cases h : d = 0
+    · simp [h]
+    · obtain ⟨g, a, bMag, bNeg, hk, _⟩ := NT.gcdExtSmall_spec W vl d (Nat.pos_of_ne_zero h)
+      simp [h, hk]
+
+/-- **the `ExtendedGcd::gcd_ext` storage skeleton of `UBig` never hits an internal assert**: in every ownership form and for ANY
+    operand words the only panic is the documented `gcd(0, 0)` one (the `DoubleWord` arm, C12's `xgcdPrimWide_spec`), and there
+    is none unless both operand values are zero -/
+theorem gcd_ext_skeleton_panics_only_on_zero_zero (W : Nat) (f : Form) (a b : List Nat) :
+    ((fragGcdExt W f a b).panic = none ∨ (fragGcdExt W f a b).panic = some .gcdZeroZero) ∧
+    (¬ (wval W a = 0 ∧ wval W b = 0) → (fragGcdExt W f a b).panic = none) := by
+  have h1 := fun r => (gcd_ext_large_skeletons_no_panic W).2 r a.length (wval W a) (wval W b)
+  have h2 := fun r => (gcd_ext_large_skeletons_no_panic W).2 r b.length (wval W b) (wval W a)
+  have h3 := fun ra rb => (gcd_ext_large_skeletons_no_panic W).1 ra rb a.length b.length (wval W a) (wval W b)
+  have hx := NT.xgcdPrimWide_spec W (wval W a) (wval W b)
+  unfold fragGcdExt
+  simp only []
+  by_cases hz : wval W a = 0 ∧ wval W b = 0
+  · have hx1 := hx.1 hz
+    constructor
+    · split_ifs <;> simp_all
+    · intro h; exact absurd hz h
+  · obtain ⟨res, hx2, _⟩ := hx.2 hz
+    obtain ⟨g, s, t⟩ := res
+    have : (fragGcdExt W f a b).panic = none := by
+      unfold fragGcdExt
+      simp only []
+      split_ifs <;> simp_all
+    unfold fragGcdExt at this
+    exact ⟨Or.inl this, fun _ => this⟩
+
+/-- the same for `gcd` / `gcd_ext` with one or both operands an `IBig` (`fragMixedGcd`: IBig gcd_ext and the mixed UBig/IBig pairs,
+    every ownership form, sign pair and operand words): the sign glue adds no panic arm -/
+theorem mixed_gcd_skeleton_panics_only_on_zero_zero (W : Nat) (hW : 0 < W) (ext : Bool) (f : Form) (aI na : Bool) (a : List Nat)
+    (bI nb : Bool) (b : List Nat) :
+    ((fragMixedGcd W ext f aI na a bI nb b).panic = none ∨ (fragMixedGcd W ext f aI na a bI nb b).panic = some .gcdZeroZero) ∧
+    (¬ (wval W a = 0 ∧ wval W b = 0) → (fragMixedGcd W ext f aI na a bI nb b).panic = none) := by
+  have hp : (fragMixedGcd W ext f aI na a bI nb b).panic =
+      if ext then (fragGcdExt W f a b).panic else (fragGcdTyped W (f == .vr || f == .vv) (f == .rv || f == .vv) a b).panic := by
+    unfold fragMixedGcd Frag.noIntoTyped
+    cases ext <;> simp
+  rw [hp]
+  cases ext
+  · exact fragGcdTyped_panic W hW _ _ a b
+  · exact gcd_ext_skeleton_panics_only_on_zero_zero W f a b
+
+-- non-vacuity: gcd_ext of two 4-word operands (gcd_ext_large), of a 4-word and a 2-word operand (gcd_ext_large_dword), and gcd(0, 0)
+example : (fragGcdExt 64 .vr [1, 2, 3, 4] [7, 0, 9, 11]).panic = none ∧ (fragGcdExt 64 .rr [6, 0, 0, 3] [4, 1]).panic = none ∧
+    (fragGcdExt 64 .vv [] [0]).panic = some .gcdZeroZero ∧
+    (fragMixedGcd 64 true .rv true true [1, 2, 3, 4] false false [5, 6, 7]).panic = none := by
+  decide +kernel
+example := (gcd_ext_skeleton_panics_only_on_zero_zero 64 .vr [1, 2, 3, 4] [7, 0, 9, 11]).2 (by decide)
 
 open Dashu.Model.Text in
 /-- per-byte conversion of a raw digit `< 36` is a 7-bit ASCII byte (at most `'z'` = 122) -/
